@@ -218,10 +218,63 @@ func (u *Universe) Check(pkgPath string, files map[string]string, tags map[strin
 		Uses:       map[*ast.Ident]types.Object{},
 		Selections: map[*ast.SelectorExpr]*types.Selection{},
 	}
+	// cell-local sub-packages ("sub/sub.go") are type-checked on demand
+	local := map[string]map[string]string{}
+	for n, src := range files {
+		if i := strings.LastIndex(n, "/"); i >= 0 && strings.HasSuffix(n, ".go") {
+			ip := pkgPath + "/" + n[:i]
+			if local[ip] == nil {
+				local[ip] = map[string]string{}
+			}
+			local[ip][n[i+1:]] = src
+		}
+	}
+	li := &localImporter{u: u, fset: c.Fset, local: local, done: map[string]*types.Package{}, tags: tags}
 	conf := types.Config{
-		Importer: u,
+		Importer: li,
 		Error:    func(err error) { c.Errors = append(c.Errors, err) },
 	}
 	c.Pkg, _ = conf.Check(pkgPath, c.Fset, asts, c.Info)
 	return c
+}
+
+type localImporter struct {
+	u     *Universe
+	fset  *token.FileSet
+	local map[string]map[string]string
+	done  map[string]*types.Package
+	tags  map[string]bool
+}
+
+func (l *localImporter) Import(path string) (*types.Package, error) {
+	if p, ok := l.done[path]; ok {
+		return p, nil
+	}
+	files, ok := l.local[path]
+	if !ok {
+		return l.u.Import(path)
+	}
+	var names []string
+	for n := range files {
+		names = append(names, n)
+	}
+	sort.Strings(names)
+	var asts []*ast.File
+	for _, n := range names {
+		if !Included(files[n], nil) {
+			continue
+		}
+		f, err := parser.ParseFile(l.fset, path+"/"+n, files[n], parser.ParseComments)
+		if err != nil {
+			return nil, err
+		}
+		asts = append(asts, f)
+	}
+	conf := types.Config{Importer: l}
+	p, err := conf.Check(path, l.fset, asts, nil)
+	if err != nil {
+		return nil, err
+	}
+	l.done[path] = p
+	return p, nil
 }
